@@ -35,6 +35,9 @@ type Constant struct {
 	Doc   string
 	Type  TypeSpec
 	Value ConstantValue
+
+	// linking is true while Link is running for this constant.
+	linking bool
 }
 
 // compileConstant builds a Constant from the given AST constant.
@@ -56,8 +59,19 @@ func compileConstant(file string, src *ast.Constant) (*Constant, error) {
 // Link resolves any references made by the constant.
 func (c *Constant) Link(scope Scope) (err error) {
 	if c.linked() {
+		if c.linking {
+			// We got back to this constant while resolving its own type
+			// or value.
+			return compileError{
+				Target: c.Name,
+				Reason: constantCycleError{Name: c.Name},
+			}
+		}
 		return nil
 	}
+
+	c.linking = true
+	defer func() { c.linking = false }()
 
 	if c.Type, err = c.Type.Link(scope); err != nil {
 		return compileError{Target: c.Name, Reason: err}
